@@ -6,3 +6,4 @@ TRUSTED = ["terminal model of DESIGN appendix A (pyvc/tstr.py VT): logical rows,
            "Padding.pad obeys its C05 placement contract (PBlock)"]
 ASSUMPTIONS = []
 NOT_DECIDED = []
+from .old_draw import *   # noqa: F401,E402  old-API draw / _display_animated
